@@ -52,10 +52,11 @@ namespace R
 
    struct TEv
    {
-      uint8_t exit;  // 0 enter, 1 exit
+      uint8_t exit;  // 0 enter, 1 exit, 2 action of an apply / apply0 / if_apply rule (rule = pseudo id, b..pos = its input)
       int16_t rule;
       int32_t pos;
       uint8_t amode;
+      int32_t b = 0;
    };
 
    // position oracle (C06 formula) over the bytes of the outermost input
@@ -794,6 +795,32 @@ namespace R
                      z = r.pos;
                   }
                }, q );
+            }
+            case IF_APPLY: {  // [Equivalent] to seq< R, apply< A... > > wrt. parsing; the action sees what R matched
+               if( !am.am ) return A( pos );
+               return G( [ = ]( int q ) {
+                  Res r = A( q );
+                  if( r.k != OK ) return r;
+                  trail.push_back( { 2, int16_t( RULE_ACTION_ID ), r.pos, 1, q } );
+                  const int d = act_decision( RULE_ACTION_ID, q, r.pos, true );
+                  if( d == 1 ) return fail();
+                  if( d == 2 ) return Res{ AX, 0, RULE_ACTION_ID, q, r.pos, -1 };
+                  return r;
+               },
+                         pos );
+            }
+            case APPLY:
+            case APPLY0: {
+               if( !am.am ) return ok( pos );
+               const int id = ( op == APPLY ) ? RULE_ACTION_ID : RULE_ACTION0_ID;
+               trail.push_back( { 2, int16_t( id ), ( op == APPLY ) ? pos : -1, 1, pos } );
+               const int d = act_decision( id, pos, ( op == APPLY ) ? pos : -2, true );
+               if( d == 1 ) {
+                  trail.pop_back();
+                  return fail();
+               }
+               if( d == 2 ) return { AX, 0, id, pos, pos, -1 };
+               return ok( pos );
             }
             case ENABLE: return ev( a, pos, end, am.with_am( 1 ) );
             case STATE: {  // state< LogState, R >: new state for R; success( in, outer... ) iff R matched, whatever the apply mode
